@@ -34,7 +34,7 @@ CHECKS = {
          "n=1..4 (quick) / 1..7 (thorough): all sequences up to threshold+2 / threshold+3 invocations of setConfig (two competing ids), cheque, alphabetUpdate and innerRingCandidateRemove by every member, a stranger and the candidate, with block gaps 1/19/20/21 and several votes per block; for n>=3 new voters are introduced in index order (the contract only compares keys for equality), n=3 additionally in every order in the thorough tier; the effect (config value, GAS at payee and contract, Alphabet list, candidate list, exactly one notification) must happen in exactly the invocation that completes floor(2n/3)+1 distinct votes", "4.17"),
  "C05": ("chainmc", "exhaustive grid over fee settings x Alphabet sizes {1,4,7} x owner-balance boundaries x naming modes x short histories, exact balance-delta oracle",
          "1134 cases: ContainerFee {0,1,7} x ContainerAliasFee {0,3} x {unnamed, new name, name reused after delete, domain registered in advance} x balance {T-1,T,T+1,2T-1,2T} x history {put; put,put; put,setConfig(fee'),put} plus Alphabet-node-as-owner rows; exact debit of the owner, exact credit of every Alphabet node account, N TransferX notifications with container-fee details, container stored; below the threshold the call must fault with an empty diff of all contracts", "4.5"),
- "C19": ("chainmc", "four explicit-state BFS explorations of the NeoFS/Processing GAS ledger (Notary on/off x Alphabet sizes) against a ledger model on the real native GAS balances, plus an exhaustive emit/acceptance grid",
+ "C19": ("chainmc", "five explicit-state BFS explorations of the NeoFS/Processing GAS ledger (Notary on with 1 and 4 keys; off with 1, 2 and 4 stored keys, where decisions are vote-collected) against a ledger model on the real native GAS balances, plus an exhaustive emit/acceptance grid",
          "ledger: all sequences up to depth 4 / 6 over deposits (0, 1, 9000 GAS, 9000 GAS+1; receiver data nil/20/19 bytes/ignore marker; foreign signer), direct and non-GAS payment-hook calls, withdraw (-1,0,1,9000,9001; owner/stranger), cheque, candidate add/remove, fee changes; contract GAS == received - cheques, exact fees to the right payees, Deposit notification <=> GAS transfer, refused => empty diff on contracts and GAS. emit: Alphabet contract index {0,2} x Inner Ring size 1..7 x g in [0,256]/[0,4096] plus powers of 2/10 boundaries up to 10^12 x signer {own node, other node, Alphabet multisig, stranger}: exact shares, conservation, g<2 faults; Proxy/Processing/Alphabet x {GAS, NEO, non-GAS contract} acceptance", "4.19"),
  "C20": ("chainmc", "five explicit-state BFS explorations (Reputation, Audit, container size estimations, NeoFSID, Netmap/NeoFS configuration) against multiset/map models with all-combination read-back",
          "all put sequences up to depth 3..4 / 4..6 per store over epochs {0,1,127,128,255,256,257,65535,65536} (encodings that are prefixes of one another), 2 containers, 2-3 nodes/peers/owners, 2 values, configuration keys {'',a,ab,abc,b}; after every step every getter and listing for every (epoch, container, node, owner, key) combination; estimation access rules (node of the previous map, witnessed, existing container), audit access rules (Inner Ring member, witnessed), cleanup deltas 3/4 on put and on tick incl. a raw storage scan; an extra list element is tolerated only when explained by the listed epoch-prefix finding", "4.20"),
